@@ -3,7 +3,7 @@
  "name": "set_inode_xattr",
  "props": ["C18"],
  "level": "U/iter",
- "tier": "wip",
+ "tier": "quick",
  "tier_after_hooks": "quick",
  "harness": "h_set_inode_xattr",
  "loop_contracts": true,
